@@ -68,10 +68,20 @@ def gen_spec(seed, tier):
     nlists = rng.randint(1, 3)
     spec = {"seed": seed, "points": [], "programs": [], "roles": {}, "faults": []}
     owner = {}
+    spec["velocity_unit"] = gen.pick(rng, ["FPS", "FPS", "MPS", "KMH", "MPH", "KT"])
     for t in range(ntasks):
         for _ in range(nlists):
-            spec["points"].append(gen_points(rng))
+            pts = gen_points(rng)
+            if rng.random() < 0.3:
+                # bare numbers: they mean the preferred velocity unit in force when the point is constructed
+                pts = [[bc, "bare", round(v * MPS[how] / MPS[spec["velocity_unit"]], 2)] if how in MPS else [bc, how, v]
+                       for bc, how, v in pts]
+            spec["points"].append(pts)
             owner.setdefault(t, []).append(len(spec["points"]) - 1)
+            if rng.random() < 0.4:
+                # a sibling list at the SAME velocities / Mach numbers with different BCs (a fitting loop over fixed bands)
+                spec["points"].append([[round(rng.uniform(0.05, 1.2), 4), how, v] for bc, how, v in pts])
+                owner[t].append(len(spec["points"]) - 1)
     n_models = [0]
     model_owner = []
 
@@ -115,6 +125,12 @@ def gen_spec(seed, tier):
             elif r < 0.85 and any(o["op"] == "build_mbc" for o in prog):
                 src = gen.pick(rng, [o for o in prog if o["op"] == "build_mbc"])
                 prog.append(dict(src, op="build_mbc", id=mid, rebuild_of=src["id"]))
+                mine.append(mid)
+            elif r < 0.9 and any(o["op"] == "build_mbc" for o in prog):
+                # the caller changes the BC of one of ITS points and builds again: the new model must follow the new value
+                src = gen.pick(rng, [o for o in prog if o["op"] == "build_mbc"])
+                prog.append({"op": "edit_bc", "points": src["points"], "k": rng.randrange(6), "bc": round(rng.uniform(0.05, 1.2), 4)})
+                prog.append(dict(src, op="build_mbc", id=mid, after_edit=True))
                 mine.append(mid)
             elif r < 0.95:
                 prog.append({"op": "single_vs_plain", "bc": round(rng.uniform(0.1, 0.9), 3),
@@ -186,14 +202,20 @@ def simulate(spec):
 
     shipped0 = {n: [(fhex(a), fhex(b)) for a, b in _tfloats(getattr(pb, n))] for n in SHIPPED_TABLES}
     plists = []
-    ppoints = []           # (object, pristine fields, expected mach)
+    ppoints = []           # [object, pristine fields, expected mach, bc]  (bc / pristine follow the caller's own edits)
+    vunit = spec.get("velocity_unit", "FPS")
+    pb.PreferredUnits.velocity = getattr(U, vunit)          # plain assignment, as the README recommends
     for pts in spec["points"]:
         lst = []
         for bc, how, val in pts:
-            p = pb.BCPoint(bc, Mach=val) if how == "Mach" else pb.BCPoint(bc, V=getattr(U, how)(val))
-            exp_mach = val if how == "Mach" else val * MPS[how] / MACH1_MPS
+            if how == "Mach":
+                p, exp_mach = pb.BCPoint(bc, Mach=val), val
+            elif how == "bare":
+                p, exp_mach = pb.BCPoint(bc, V=val), val * MPS[vunit] / MACH1_MPS
+            else:
+                p, exp_mach = pb.BCPoint(bc, V=getattr(U, how)(val)), val * MPS[how] / MACH1_MPS
             lst.append(p)
-            ppoints.append((p, (fhex(float(p.BC)), fhex(float(p.Mach)), fhex(p.V.raw_value)), exp_mach, bc))
+            ppoints.append([p, (fhex(float(p.BC)), fhex(float(p.Mach)), fhex(float(p.V.raw_value))), exp_mach, bc])
         plists.append(lst)
     # V -> Mach law for the points themselves
     for p, _, exp_mach, bc in ppoints:
@@ -259,6 +281,16 @@ def simulate(spec):
                     sink("law.single_point_not_plain", pending[t.idx][2],
                          f"single-point multi-BC model differs from the plain model: worst relative CD/BC gap {worst:.3e}")
                 return {"kind": "ok", "digest": fhex(worst)}
+            if k == "edit_bc":
+                t.harness = 1
+                lst = plists[op["points"]]
+                pt = lst[op["k"] % len(lst)]
+                pt.BC = op["bc"]                       # the caller's own edit of its own object
+                for rec_ in ppoints:
+                    if rec_[0] is pt:
+                        rec_[1] = (fhex(float(pt.BC)), rec_[1][1], rec_[1][2])
+                        rec_[3] = op["bc"]
+                return {"kind": "ok", "digest": "edited"}
             if k == "fire_short":
                 m = models.get(op["model"])
                 if m is None:
@@ -306,7 +338,7 @@ def simulate(spec):
                                                    f"{' (interrupted)' if res.get('kind') == 'interrupted' else ''}")
         # (O2) points
         for p, f0, _, _ in ppoints:
-            if (fhex(float(p.BC)), fhex(float(p.Mach)), fhex(p.V.raw_value)) != f0:
+            if (fhex(float(p.BC)), fhex(float(p.Mach)), fhex(float(p.V.raw_value))) != f0:
                 sink("inputs.point_changed", pend[2] if pend else "-", "a BC point passed in was altered")
                 break
         # (O2) sibling models
@@ -339,7 +371,7 @@ def simulate(spec):
                         sink("law.effective_bc", tkind, f"at Mach {mi}: effective BC {eff!r}, interpolation of the points gives {exp!r}")
                         break
             # same recipe => same model
-            key = sha([op["points"], tkey, op.get("dims")])
+            key = sha([op["points"], [x[3] for x in ppoints if any(x[0] is q for q in plists[op["points"]])], tkey, op.get("dims")])
             s = _model_snap(m)
             if key in recipes and recipes[key] != s:
                 sink("repeat.differs", tkind, f"building again from the same inputs gave a different model "
@@ -361,6 +393,7 @@ def simulate(spec):
     sim = Sim(spec["programs"], exec_op, dec, mode=cfg["mode"], opcode=cfg.get("opcode", False),
               faults=spec.get("faults"), on_boundary=on_boundary, event_budget=3_000_000)
     sim.run()
+    pb.PreferredUnits.defaults()
     results = [t.results for t in sim.tasks]
     kinds = {}
     for p in spec["programs"]:
